@@ -26,8 +26,13 @@ def _check_pair(case):
 
 
 def _check_pair_on(ea, eb, LO, HI, spanb):
-    A = IT("A", list(ea), LO, HI)
-    B = IT("B", list(eb), LO, spanb)
+    if LO is None:   # both tiers built with the span arguments omitted: the span is the hull of the entries ("tight")
+        A = IT("A", list(ea))
+        B = IT("B", list(eb))
+        LO, HI = A.minTimestamp, A.maxTimestamp
+    else:
+        A = IT("A", list(ea), LO, HI)
+        B = IT("B", list(eb), LO, spanb)
     FA, FB = ival.fentries(ea), ival.fentries(eb)
     before = (canon(A), canon(B))
     viols = []
@@ -110,8 +115,9 @@ def _check_pair_on(ea, eb, LO, HI, spanb):
                     break
         if msg is None:
             ehi = max([F(HI)] + [x[1] for x in exp])
-            if F(u.minTimestamp) != F(LO) or F(u.maxTimestamp) != ehi:
-                msg = f"union span ({u.minTimestamp},{u.maxTimestamp}), expected ({LO},{float(ehi)})"
+            elo = min([F(LO)] + [x[0] for x in exp])
+            if F(u.minTimestamp) != elo or F(u.maxTimestamp) != ehi:
+                msg = f"union span ({u.minTimestamp},{u.maxTimestamp}), expected ({float(elo)},{float(ehi)})"
         if msg is None and wellformed(u):
             msg = "union ill-formed: " + wellformed(u)
         if msg:
@@ -263,6 +269,18 @@ def parts(tier):
              "and the partition consequence; non-trivial = distinct geometry pairs with at least one overlap or touch"
              % (len(base), NC),
         bounds={"cells": NC, "tiers": len(base), "thorough_adds": "2-label tiers on 5 cells, B span 8"}))
+
+    def gen_tight():
+        for ta in base:
+            for tb in base:
+                if ta and tb:
+                    yield (_uniq(ta, "a"), _uniq(tb, "x"), None)
+
+    ps.append(InputPart(
+        "setops-tight-spans", gen_tight, lambda case: _check_pair_on(case[0], case[1], None, None, None),
+        rule="all ordered pairs of non-empty tiers on %d unit cells, both built with the span arguments OMITTED (span = hull of the entries, so "
+             "an entry of B can stick out of A's span on one or both sides): the same oracles; the union's span is the hull of both, every "
+             "result is well-formed (entries inside the span)" % NC, bounds={"cells": NC}))
 
     ugrid = tuple(sorted(D.ULP))
     usets = D.interval_sets(ugrid, 2)
